@@ -133,7 +133,9 @@ type Run struct {
 	reverseMaps bool
 	preempts    int
 	aliases     map[*Agg][]aliasRange
-	frozen      map[*Agg]string // backing arrays the harness declared immutable (shared tables)
+	frozen      map[*Agg]string
+	pushed      int // prefixes handed to the queue by this run
+	skipPush    int // (retry after a solver crash) prefixes the first attempt already queued // backing arrays the harness declared immutable (shared tables)
 	decReg      map[*smt.Term]decEntry
 	hornerReg   map[*smt.Term]hornerEntry
 	decCache    map[*smt.Term][]*smt.Term
@@ -374,7 +376,7 @@ func (r *Run) decide(kind uint8, alts []*smt.Term) int {
 		np := make([]Decision, len(r.taken)+1)
 		copy(np, r.taken)
 		np[len(r.taken)] = Decision{Kind: kind, N: int32(len(alts)), Alt: int32(j)}
-		r.E.push(np)
+		r.pushPrefix(np)
 	}
 	r.taken = append(r.taken, Decision{Kind: kind, N: int32(len(alts)), Alt: int32(feas[0])})
 	r.assumeRaw(alts[feas[0]])
@@ -410,7 +412,7 @@ func (r *Run) choose(n int) int {
 		np := make([]Decision, len(r.taken)+1)
 		copy(np, r.taken)
 		np[len(r.taken)] = Decision{Kind: dkChoose, N: int32(n), Alt: int32(j)}
-		r.E.push(np)
+		r.pushPrefix(np)
 	}
 	r.taken = append(r.taken, Decision{Kind: dkChoose, N: int32(n), Alt: 0})
 	return 0
@@ -506,14 +508,14 @@ func (r *Run) concretize(t *smt.Term, why string) uint64 {
 		np := make([]Decision, len(r.taken)+1)
 		copy(np, r.taken)
 		np[len(r.taken)] = Decision{Kind: dkConcretize, N: 2, Alt: 0, Val: f, Excl: excl}
-		r.E.push(np)
+		r.pushPrefix(np)
 	}
 	if more {
 		ne := append(append([]uint64(nil), excl...), found...)
 		np := make([]Decision, len(r.taken)+1)
 		copy(np, r.taken)
 		np[len(r.taken)] = Decision{Kind: dkConcretize, N: 2, Alt: 1, Excl: ne}
-		r.E.push(np)
+		r.pushPrefix(np)
 	}
 	r.taken = append(r.taken, Decision{Kind: dkConcretize, N: 2, Alt: 0, Val: v})
 	r.assumeRaw(r.B.Eq(t, smt.Const(t.W, v)))
@@ -792,4 +794,14 @@ func sortedKeys(m map[string]int) []string {
 	}
 	sort.Strings(ks)
 	return ks
+}
+
+// pushPrefix queues an alternative for later exploration; a retried run does not queue again what
+// its first attempt already did (re-execution is deterministic, so the order is the same).
+func (r *Run) pushPrefix(np []Decision) {
+	r.pushed++
+	if r.pushed <= r.skipPush {
+		return
+	}
+	r.E.push(np)
 }
